@@ -12,11 +12,19 @@ Hypotheses are the documented preconditions only:
   `(w:Int) ∣ 2^32`   rotl/rotr: the width divides 2^32 (true for 8/16/32/64; the `unsigned(s) % digits`
                      reduction of the source is only correct then — see `rotl_needs_dvd_counterexample`);
   `w ≤ 16 ∨ 32 ≤ w`  midpoint: a type narrower than `int` has at most 16 bits (so `a + half` is exact in `int`);
+  `w < 2^31`, `pos < w`  test/set/reset/flip_bit and countr_zero/one: the bit position is smaller than the width
+                     (and the width fits the `static_cast<int>(pos)` of the precondition check);
+  `w = 16 ∨ 32 ∨ 64` byteswap (plus 8) / `w = 8 ∨ 16 ∨ 32` ntoh, hton: the overloads that exist;
+  ipow `t.inR (base ^ e)`: the result is representable (and `t.inR 1`: so is the literal `Int(1)`);
   bit_ceil `x ≤ 2^(w-1)`, gcd/lcm `|m|,|n|` (and the lcm) representable in the common type, abs `x ≠ min`:
                      the preconditions of the C++ standard.
 Each theorem with hypotheses is followed by an `example` instantiating it on a non-trivial value.
 -/
 import TetlProofs.C14.Lemmas
+import TetlProofs.C14.Count
+import TetlProofs.C14.BitOps
+import TetlProofs.C14.Bswap
+import TetlProofs.C14.Ipow
 namespace Tetl.C14.Props
 open Tetl Tetl.C14
 
@@ -623,5 +631,201 @@ example : absM ⟨32, true⟩ (-2147483647) = .ok (Spec.abs (-2147483647)) := ab
 theorem ilog2_eq (t : ITy) (x : Int) : ilog2 t x = .ok ((Spec.ilog2 x.toNat : Nat) : Int) := by
   unfold ilog2 Spec.ilog2; rw [ilog2Loop_eq]; simp
 
+/-! ## countl_one, countr_zero, countr_one, has_single_bit -/
+
+/-- `countl_one`: the shift loop stops within `w` rounds and returns the number of leading zeros of
+    the `w`-bit complement. -/
+theorem countlOne_eq (w x : Nat) (hw : 1 ≤ w) (hx : x < 2^w) :
+    countlOne w x = .ok (Spec.countlOne w x) := by
+  unfold countlOne Spec.countlOne
+  by_cases h : x = 2^w - 1
+  · subst h; simp [Spec.bitWidth]
+  · simp only [beq_iff_eq, h, if_false]
+    have hc : 2^w - 1 - x ≠ 0 := by omega
+    have hb : 1 ≤ Spec.bitWidth (2^w - 1 - x) := by unfold Spec.bitWidth; simp [hc]
+    rw [cloLoop_eq w hw w x 0 hx (by omega)]
+    simp
+
+example : countlOne 16 0xFE0F = .ok (Spec.countlOne 16 0xFE0F) := countlOne_eq 16 0xFE0F (by decide) (by decide)
+
+/-- `countr_zero`: index of the lowest 1 bit among the low `w` bits, `w` if there is none; every
+    `test_bit` precondition and shift count on the way is satisfied. -/
+theorem countrZero_eq (w x : Nat) (hw31 : w < 2^31) : countrZero w x = .ok (Spec.countrZero w x) := by
+  unfold countrZero Spec.countrZero
+  rw [ctzLoop_eq w x hw31 (w + 1) w 0 (by omega) (by omega), List.range_eq_range']
+
+example : countrZero 64 (2^63) = .ok (Spec.countrZero 64 (2^63)) := countrZero_eq 64 _ (by decide)
+
+/-- `countr_one`: index of the lowest 0 bit among the low `w` bits, `w` if there is none. -/
+theorem countrOne_eq (w x : Nat) (hw31 : w < 2^31) : countrOne w x = .ok (Spec.countrOne w x) := by
+  unfold countrOne Spec.countrOne
+  rw [ctoLoop_eq w x hw31 (w + 1) w 0 (by omega) (by omega), List.range_eq_range']
+
+example : countrOne 8 0xFF = .ok (Spec.countrOne 8 0xFF) := countrOne_eq 8 _ (by decide)
+
+/-- `has_single_bit` (`popcount(x) == 1`): `x` is a power of two. -/
+theorem hasSingleBit_eq (w x : Nat) (hx : x < 2^w) : hasSingleBit w x = .ok (Spec.hasSingleBit x) := by
+  unfold hasSingleBit
+  rw [popcount_eq w x hx]
+  simp only [ok_bind]
+  congr 1
+  rw [Bool.eq_iff_iff, beq_iff_eq, pc_eq_one w x hx, hasSingleBit_iff]
+
+example : hasSingleBit 32 (2^31) = .ok (Spec.hasSingleBit (2^31)) := hasSingleBit_eq 32 _ (by decide)
+
+/-! ## set_bit, reset_bit, flip_bit -/
+
+/-- `set_bit(word, pos)`: `word` with bit `pos` set. -/
+theorem setBit_eq (w word pos : Nat) (hw31 : w < 2^31) (hword : word < 2^w) (hpos : pos < w) :
+    setBit w word pos = .ok (Spec.setBit word pos) := by
+  unfold setBit Spec.setBit
+  rw [bitPosPre_ok w pos hw31 hpos, oneShl_ok w pos hpos, specTestBit_eq]
+  simp only [Bool.not_true, Bool.false_eq_true, if_false, ok_bind]
+  rw [Nat.mod_eq_of_lt (or_lt w word pos hword hpos)]
+  cases hb : word.testBit pos
+  · simp [or_two_pow_of_clear word pos hb]
+  · simp [or_two_pow_of_set word pos hb]
+
+example : setBit 64 5 63 = .ok (Spec.setBit 5 63) := setBit_eq 64 5 63 (by decide) (by decide) (by decide)
+
+/-- `reset_bit(word, pos)`: `word` with bit `pos` cleared. -/
+theorem resetBit_eq (w word pos : Nat) (hw31 : w < 2^31) (hword : word < 2^w) (hpos : pos < w) :
+    resetBit w word pos = .ok (Spec.resetBit word pos) := by
+  unfold resetBit Spec.resetBit
+  rw [bitPosPre_ok w pos hw31 hpos, oneShl_ok w pos hpos, specTestBit_eq]
+  simp only [Bool.not_true, Bool.false_eq_true, if_false, ok_bind]
+  rw [Nat.mod_eq_of_lt (and_lt w word _ hword)]
+  cases hb : word.testBit pos
+  · simp [and_notU_of_clear w word pos hword hpos hb]
+  · simp [and_notU_of_set w word pos hword hpos hb]
+
+example : resetBit 8 0xFF 7 = .ok (Spec.resetBit 0xFF 7) := resetBit_eq 8 0xFF 7 (by decide) (by decide) (by decide)
+
+/-- `flip_bit(word, pos)`: `word` with bit `pos` inverted. -/
+theorem flipBit_eq (w word pos : Nat) (hw31 : w < 2^31) (hword : word < 2^w) (hpos : pos < w) :
+    flipBit w word pos = .ok (Spec.flipBit word pos) := by
+  unfold flipBit Spec.flipBit
+  rw [bitPosPre_ok w pos hw31 hpos, oneShl_ok w pos hpos, specTestBit_eq]
+  simp only [Bool.not_true, Bool.false_eq_true, if_false, ok_bind]
+  rw [Nat.mod_eq_of_lt (xor_lt w word pos hword hpos)]
+  cases hb : word.testBit pos
+  · simp [xor_two_pow_of_clear word pos hb]
+  · simp [xor_two_pow_of_set word pos hb]
+
+example : flipBit 16 0x8001 15 = .ok (Spec.flipBit 0x8001 15) := flipBit_eq 16 _ 15 (by decide) (by decide) (by decide)
+
+/-- `set_bit(word, pos, value)`: bit `pos` set or cleared according to `value`. -/
+theorem setBitTo_eq (w word pos : Nat) (value : Bool) (hw31 : w < 2^31) (hword : word < 2^w) (hpos : pos < w) :
+    setBitTo w word pos value = .ok (if value then Spec.setBit word pos else Spec.resetBit word pos) := by
+  unfold setBitTo Spec.setBit Spec.resetBit
+  rw [bitPosPre_ok w pos hw31 hpos, oneShl_ok w pos hpos, specTestBit_eq]
+  have hpw : pos < pw w := Nat.lt_of_lt_of_le hpos (pw_ge w)
+  simp only [Bool.not_true, Bool.false_eq_true, if_false, ok_bind, hpw, decide_true]
+  rw [boolShl]
+  have hy : word &&& notU w (2^pos) < 2^w := and_lt w word _ hword
+  cases value
+  · simp only [Bool.false_eq_true, if_false, Nat.or_zero]
+    rw [Nat.mod_eq_of_lt hy]
+    cases hb : word.testBit pos
+    · simp [and_notU_of_clear w word pos hword hpos hb]
+    · simp [and_notU_of_set w word pos hword hpos hb]
+  · simp only [if_true]
+    rw [Nat.mod_eq_of_lt (or_lt w _ pos hy hpos)]
+    cases hb : word.testBit pos
+    · simp [and_notU_of_clear w word pos hword hpos hb, or_two_pow_of_clear word pos hb]
+    · obtain ⟨hge, hclr⟩ := split_of_set word pos hb
+      rw [and_notU_of_set w word pos hword hpos hb, or_two_pow_of_clear _ pos hclr]
+      simp; omega
+
+example : setBitTo 32 0xFFFF0000 31 false = .ok (Spec.resetBit 0xFFFF0000 31) :=
+  setBitTo_eq 32 _ 31 false (by decide) (by decide) (by decide)
+example : setBitTo 32 0x0000FFFF 31 true = .ok (Spec.setBit 0x0000FFFF 31) :=
+  setBitTo_eq 32 _ 31 true (by decide) (by decide) (by decide)
+
+/-! ## byteswap, ntoh, hton: byte reversal -/
+
+/-- `detail::byteswap_fallback` (the three overloads): the `w/8` bytes of `v` in reverse order. -/
+theorem byteswapFallback_eq (w v : Nat) (hw : w = 16 ∨ w = 32 ∨ w = 64) (hv : v < 2^w) :
+    byteswapFallback w v = .ok (Spec.bswap (w / 8) v) := by
+  unfold byteswapFallback
+  rcases hw with rfl | rfl | rfl
+  · simp [bswap16_eq v hv]
+  · simp [bswap32_eq v hv]
+  · simp [bswap64_eq v hv]
+
+example : byteswapFallback 64 0x0102030405060708 = .ok (Spec.bswap 8 0x0102030405060708) :=
+  byteswapFallback_eq 64 _ (by decide) (by decide)
+
+/-- `byteswap(val)` for every integer type of 1, 2, 4 or 8 bytes, signed included: the object
+    representation (the value modulo `2^w`) byte-reversed and read back in the type. -/
+theorem byteswap_eq (t : ITy) (hw : t.w = 8 ∨ t.w = 16 ∨ t.w = 32 ∨ t.w = 64) (val : Int) (hval : t.inR val = true) :
+    byteswap t val = .ok (t.conv (Spec.bswap (t.w / 8) (t.uns.conv val).toNat)) := by
+  have hw1 : 1 ≤ t.w := by omega
+  have hu : t.uns.conv val = val % 2^t.w := convU t.w val
+  have h0 : 0 ≤ val % 2^t.w := Int.emod_nonneg _ (Int.ne_of_gt (Int.pow_pos (by decide)))
+  have hlt : val % 2^t.w < 2^t.w := Int.emod_lt_of_pos _ (Int.pow_pos (by decide))
+  have hnat : (t.uns.conv val).toNat < 2^t.w := by
+    rw [hu]
+    have hc : ((2:Nat)^t.w : Int) = (2:Int)^t.w := by simp
+    omega
+  unfold byteswap
+  by_cases h8 : t.w = 8
+  · simp only [h8, beq_self_eq_true, if_true]
+    congr 1
+    have hb : Spec.bswap (8 / 8) (t.uns.conv val).toNat = (t.uns.conv val).toNat := by
+      have : (t.uns.conv val).toNat < 256 := by rw [h8] at hnat; exact hnat
+      show Spec.bswap 1 _ = _
+      simp only [Spec.bswap]; omega
+    rw [hb, Int.toNat_of_nonneg (by rw [hu]; exact h0), hu, conv_emod, conv_of_inR t hw1 val hval]
+  · have h8' : (t.w == 8) = false := by simp [h8]
+    simp only [h8', Bool.false_eq_true, if_false]
+    rw [byteswapFallback_eq t.w _ (by omega) hnat]
+    simp
+
+example : byteswap ⟨32, true⟩ (-2) = .ok (ITy.conv ⟨32, true⟩ (Spec.bswap 4 (ITy.conv ⟨32, false⟩ (-2)).toNat)) :=
+  byteswap_eq ⟨32, true⟩ (by decide) (-2) (by decide)
+
+/-- `ntoh` (8/16/32-bit overloads; the 64-bit one is deleted): byte reversal. -/
+theorem ntoh_eq (w v : Nat) (hw : w = 8 ∨ w = 16 ∨ w = 32) (hv : v < 2^w) :
+    ntoh w v = .ok (Spec.bswap (w / 8) v) := by
+  unfold ntoh
+  rcases hw with rfl | rfl | rfl
+  · have : Spec.bswap (8 / 8) v = v := by
+      show Spec.bswap 1 v = v
+      simp only [Spec.bswap]; omega
+    simp [this]
+  · simp [ntoh16_eq v hv]
+  · simp [ntoh32_eq v hv]
+
+example : ntoh 32 0x01020304 = .ok (Spec.bswap 4 0x01020304) := ntoh_eq 32 _ (by decide) (by decide)
+
+/-- `hton` forwards to `ntoh`. -/
+theorem hton_eq (w v : Nat) (hw : w = 8 ∨ w = 16 ∨ w = 32) (hv : v < 2^w) :
+    hton w v = .ok (Spec.bswap (w / 8) v) := ntoh_eq w v hw hv
+
+example : hton 16 0x0102 = .ok (Spec.bswap 2 0x0102) := hton_eq 16 _ (by decide) (by decide)
+
+/-! ## ipow: the multiplication loop -/
+
+/-- `ipow(base, exponent)`: the exact integer power whenever it is a value of the type (a negative
+    exponent runs the loop zero times: 1); no intermediate product overflows the promoted type or
+    is changed by the conversion back to `Int`.  `t.inR 1`: the literal `Int(1)` is a value of the type. -/
+theorem ipow_eq (t : ITy) (base e : Int) (h1 : t.inR 1 = true) (hb : t.inR base = true)
+    (hr : t.inR (base ^ e.toNat) = true) : ipow t base e = .ok (Spec.ipow base e.toNat) := by
+  have hw : 1 ≤ t.w := by
+    cases hw0 : t.w with
+    | zero =>
+      rw [inR_iff] at h1; unfold ITy.max at h1; rw [hw0] at h1
+      cases t.sg <;> simp at h1
+    | succ n => omega
+  unfold ipow Spec.ipow
+  rw [ipowLoop_eq t hw base e.toNat 1]
+  · simp
+  · intro k hk1 hkn
+    rw [Int.one_mul]
+    exact pow_inR t hw base e.toNat h1 hb hr k hk1 hkn
+
+example : ipow ⟨8, true⟩ (-2) 7 = .ok (Spec.ipow (-2) 7) := ipow_eq ⟨8, true⟩ (-2) 7 (by decide) (by decide) (by decide)
+example : ipow ⟨64, false⟩ 3 40 = .ok (Spec.ipow 3 40) := ipow_eq ⟨64, false⟩ 3 40 (by decide) (by decide) (by decide)
 
 end Tetl.C14.Props
